@@ -131,7 +131,8 @@ TotalOrderOn(m, withPort) ==
   /\ \A i, j \in 1..N : m[i][j] = -m[j][i]                                   \* antisymmetric
   /\ \A i, j \in 1..N : (m[i][j] = 0 <=> SameAddr(i, j, withPort))           \* equal iff equal
   /\ \A i, j, k \in 1..N : (m[i][j] <= 0 /\ m[j][k] <= 0) => m[i][k] <= 0    \* transitive
-TotalOrder == Mode = "cmp" => (TotalOrderOn(Dump.m0, FALSE) /\ TotalOrderOn(Dump.m1, TRUE))
+(* (a = <<>> keeps the formula state-level so that TLC reports it as an invariant violation) *)
+TotalOrder == (Mode = "cmp" /\ a = <<>>) => (TotalOrderOn(Dump.m0, FALSE) /\ TotalOrderOn(Dump.m1, TRUE))
 
 -----------------------------------------------------------------------------
 Init == a = <<>> /\ b = <<>>
